@@ -1530,6 +1530,30 @@ def _m_from_be_bytes(eng, st, callee, args, ev):
     return _m_from_le_bytes(eng, st, callee, args, ev, be=True)
 
 
+def _m_to_ne_bytes(eng, st, callee, args, ev):
+    """`x.to_le().to_ne_bytes()` is `x.to_le_bytes()` and `x.to_be().to_ne_bytes()` is `x.to_be_bytes()` on every target (std defines the
+    latter by the former).  `to_ne_bytes` of anything else is target-dependent and stays an opaque call."""
+    ty = _int_self(callee)
+    x = args[0] if args else None
+    if ty is None or not (isinstance(x, tuple) and x and x[0] == "call" and len(x[3]) == 1):
+        return NotImplemented
+    k = x[2] or ""
+    if k.endswith("<impl %s>::to_le" % ty):
+        return _m_to_le_bytes(eng, st, callee, [x[3][0]], ev)
+    if k.endswith("<impl %s>::to_be" % ty):
+        return _m_to_le_bytes(eng, st, callee, [x[3][0]], ev, be=True)
+    return NotImplemented
+
+
+def _m_from_le_be(eng, st, callee, args, ev):
+    """`uN::from_le(uN::from_ne_bytes(b))` is `uN::from_le_bytes(b)`; same for `from_be` (std's definitions, target-independent)"""
+    ty = _int_self(callee)
+    x = args[0] if args else None
+    if ty is None or not (isinstance(x, tuple) and x and x[0] == "call" and len(x[3]) == 1 and (x[2] or "").endswith("<impl %s>::from_ne_bytes" % ty)):
+        return NotImplemented
+    return ("from_bytes", "le" if callee.get("name") == "from_le" else "be", ty, x[3][0])
+
+
 def _m_swap_bytes(eng, st, callee, args, ev):
     ty = _int_self(callee)
     if ty is None:
@@ -1976,8 +2000,10 @@ COMBINATORS = {
     ("O", "map_or_else"): {"Some": ("val", ("call", 3, [("pay", "Some")])), "None": ("val", ("call", 2, []))},
     ("O", "ok_or"): {"Some": ("wrap", RES, "Ok", 0, ("pay", "Some")), "None": ("wrap", RES, "Err", 1, ("arg", 2))},
     ("O", "ok_or_else"): {"Some": ("wrap", RES, "Ok", 0, ("pay", "Some")), "None": ("wrap", RES, "Err", 1, ("call", 2, []))},
+    ("B", "then_some"): {"true": ("wrap", OPT, "Some", 1, ("arg", 2)), "false": ("none",)},
+    ("B", "then"): {"true": ("wrap", OPT, "Some", 1, ("call", 2, [])), "false": ("none",)},
 }
-VIDX = {"Ok": 0, "Err": 1, "None": 0, "Some": 1}
+VIDX = {"Ok": 0, "Err": 1, "None": 0, "Some": 1, "true": 1, "false": 0}
 
 
 def _callable(eng, t):
@@ -1996,7 +2022,7 @@ def _callable(eng, t):
 
 def _syn_combinator(fam, name):
     arms = COMBINATORS[(fam, name)]
-    variants = ("Ok", "Err") if fam == "R" else ("Some", "None")
+    variants = ("Ok", "Err") if fam == "R" else ("true", "false") if fam == "B" else ("Some", "None")
 
     def build(eng, st, callee, args, ev):
         nargs = len(args)
@@ -2076,8 +2102,11 @@ def _syn_combinator(fam, name):
         a1 = arm_blocks(arms[variants[1]])
         unreachable = len(blocks)
         blocks.append(_bb([], {"k": "unreachable"}))
-        blocks[0] = _bb([_assign(d, {"k": "discr", "p": _P(1)})],
-                        {"k": "switch", "discr": _mv(d), "targets": [[VIDX[variants[0]], a0], [VIDX[variants[1]], a1]], "otherwise": unreachable, "dty": "isize"})
+        if fam == "B":
+            blocks[0] = _bb([], {"k": "switch", "discr": _mv(1), "targets": [[0, a1]], "otherwise": a0, "dty": "bool"})
+        else:
+            blocks[0] = _bb([_assign(d, {"k": "discr", "p": _P(1)})],
+                            {"k": "switch", "discr": _mv(d), "targets": [[VIDX[variants[0]], a0], [VIDX[variants[1]], a1]], "otherwise": unreachable, "dty": "isize"})
         return SynFn(name, nargs, nloc[0] + 1, blocks, st.frames[-1]["fn"])
     return build
 
@@ -2170,11 +2199,49 @@ _INT_FOLDS = {
 }
 
 
+def _syn_fold(eng, st, callee, args, ev):
+    """Iterator::fold(iter, init, f): the documented loop  `let mut acc = init; while let Some(x) = iter.next() { acc = f(acc, x) } acc`
+    (explored up to the engine's loop bound, exactly like the loop written in the source)"""
+    if len(args) != 3:
+        return None
+    ca = _callable(eng, args[2])
+    if ca is None or ca[0] == "ctor" or (ca[0] == "closure" and ca[1].argc != 3):
+        return None
+    sty = callee.get("self_ty") or (callee.get("args") or ["?"])[0]
+    nxt = {"def": "std::iter::Iterator::next", "canon": "core::iter::traits::iterator::Iterator::next", "full": "Iterator::next", "krate": "core",
+           "name": "next", "args": [sty], "dk": "AssocFn", "unsafe": False, "trait": "core::iter::traits::iterator::Iterator", "self_ty": sty}
+    # locals: 0 ret, 1 iter (by value), 2 acc, 3 closure, 4 env ref, 5 next result, 6 discr, 7 closure result, 8 &mut iter
+    st2 = []
+    blocks = [
+        _bb([_assign(8, {"k": "ref", "mut": True, "p": _P(1, ty=sty)})],
+            {"k": "call", "callee": nxt, "args": [{"k": "move", "p": _P(8, ty="&mut " + sty)}], "dest": _P(5, ty="std::option::Option<&u8>"), "target": 1,
+             "unwind": None, "line": None, "exp": True}),
+        _bb([_assign(6, {"k": "discr", "p": _P(5)})], {"k": "switch", "discr": _mv(6), "targets": [[0, 3], [1, 2]], "otherwise": 5, "dty": "isize"}),
+        None,
+        _bb([_assign(0, {"k": "use", "op": _mv(2)})], {"k": "return"}),
+        _bb([_assign(2, {"k": "use", "op": _mv(7)})], {"k": "goto", "target": 0}),
+        _bb([], {"k": "unreachable"}),
+    ]
+    fargs = [_mv(2), _mv(5, [{"k": "downcast", "name": "Some"}, {"k": "field", "name": "0"}])]
+    if ca[0] == "closure":
+        blocks[2] = _bb(st2, _closure_call(ca[1], 3, 4, fargs, 7, 4, st2))
+    else:
+        cal = dict(ca[1])
+        cal["syn_inline"] = True
+        blocks[2] = _bb([], {"k": "call", "callee": cal, "args": fargs, "dest": _P(7), "target": 4, "unwind": None, "line": None, "exp": True})
+    return SynFn("fold", 3, 9, blocks, st.frames[-1]["fn"])
+
+
 SYN_MODELS = {
     "core::iter::traits::iterator::Iterator::try_for_each": _syn_try_for_each,
     "core::iter::traits::iterator::Iterator::for_each": _syn_for_each,
+    "core::iter::traits::iterator::Iterator::fold": _syn_fold,
 }
 for (_fam, _nm) in COMBINATORS:
+    if _fam == "B":
+        for _pre in ("core::bool::<impl bool>::", "std::bool::<impl bool>::"):
+            SYN_MODELS[_pre + _nm] = _syn_combinator(_fam, _nm)
+        continue
     SYN_MODELS[("std::result::Result::<T, E>::" if _fam == "R" else "std::option::Option::<T>::") + _nm] = _syn_combinator(_fam, _nm)
 
 
@@ -2534,6 +2601,13 @@ def _m_copy_nonoverlapping(eng, st, callee, args, ev):
     return UNIT
 
 
+def _m_offset_from(eng, st, callee, args, ev):
+    """`a.offset_from(b)` on byte pointers is the address difference (element size 1)"""
+    if len(args) != 2 or (callee.get("args") or [None])[0] not in ("u8", "i8"):
+        return NotImplemented
+    return mk_cast("IntToInt", mk_bin("Sub", args[0], args[1], "usize"), "usize", "isize")
+
+
 def _m_ptr_range(eng, st, callee, args, ev):
     sp = slice_parts(eng, st, args[0], callee.get("self_ty"))
     if sp is None or sp[0][0] == "A1":
@@ -2578,6 +2652,8 @@ SLICE_MODELS = {
     "std::ptr::read": _m_ptr_read, "core::ptr::read": _m_ptr_read,
     "core::ptr::write": _m_ptr_write,
     "std::ptr::copy_nonoverlapping": _m_copy_nonoverlapping,
+    "std::ptr::mut_ptr::<impl *mut T>::offset_from": _m_offset_from, "core::ptr::mut_ptr::<impl *mut T>::offset_from": _m_offset_from,
+    "std::ptr::const_ptr::<impl *const T>::offset_from": _m_offset_from, "core::ptr::const_ptr::<impl *const T>::offset_from": _m_offset_from,
     "core::ptr::copy_nonoverlapping": _m_copy_nonoverlapping,
     "std::intrinsics::copy_nonoverlapping": _m_copy_nonoverlapping,
     "core::slice::<impl [T]>::iter": _m_slice_iter,
@@ -2652,6 +2728,9 @@ for _t in ("u8", "i8", "u16", "i16", "u32", "i32", "u64", "i64", "u128", "i128",
     MODELS["core::num::<impl %s>::leading_zeros" % _t] = _m_leading_zeros
     MODELS["core::num::<impl %s>::wrapping_neg" % _t] = _m_wrapping_neg
     MODELS["core::num::<impl %s>::swap_bytes" % _t] = _m_swap_bytes
+    MODELS["core::num::<impl %s>::to_ne_bytes" % _t] = _m_to_ne_bytes
+    MODELS["core::num::<impl %s>::from_le" % _t] = _m_from_le_be
+    MODELS["core::num::<impl %s>::from_be" % _t] = _m_from_le_be
 
 
 # ---- pretty printing -------------------------------------------------------------------------
